@@ -582,10 +582,31 @@ func monitorBracketed(fd *ast.FuncDecl, mu string) bool {
 		}
 		return false
 	}
-	es, ok := fd.Body.List[0].(*ast.ExprStmt)
+	// tracing preamble (span := tracer.Start(..); defer span.End(); span.SetAttributes(..)) touches no
+	// state of the object and may precede the lock
+	isTracing := func(st ast.Stmt) bool {
+		txt := func(e ast.Expr) string { return types.ExprString(e) }
+		switch x := st.(type) {
+		case *ast.AssignStmt:
+			return len(x.Rhs) == 1 && strings.Contains(txt(x.Rhs[0]), "tracer.Start(")
+		case *ast.DeferStmt:
+			return strings.HasSuffix(txt(x.Call.Fun), "span.End")
+		case *ast.ExprStmt:
+			return strings.HasPrefix(txt(x.X), "span.SetAttributes(")
+		}
+		return false
+	}
+	list := fd.Body.List
+	for len(list) > 0 && isTracing(list[0]) {
+		list = list[1:]
+	}
+	if len(list) < 2 {
+		return false
+	}
+	es, ok := list[0].(*ast.ExprStmt)
 	if !ok || !callOn(es.X, "Lock", "RLock") {
 		return false
 	}
-	ds, ok := fd.Body.List[1].(*ast.DeferStmt)
+	ds, ok := list[1].(*ast.DeferStmt)
 	return ok && callOn(ds.Call, "Unlock", "RUnlock")
 }
